@@ -347,10 +347,16 @@ def run_adapt(case, r):
     except ConvergenceError as e:
         raised = e
     except ProgressBound as e:
-        r.check(False, 'bounded-blocks', f'{tag}: {e} (logical progress bound, not wall clock)')
-        return
+        # the block bound is a harness guard, not a verdict: a hostile error model can legitimately drive the controller into a
+        # large-step-rejected / tiny-step-accepted cycle that advances by 1e-4*dt0 per block.  The recorded prefix is judged by
+        # the same monitors (the per-block 'progress' and 'retry-budget' clauses decide "advances or stops"); clauses that need
+        # the end of the run are skipped.
+        raised = e
+        r.count('runs_truncated_at_block_bound')
     ev = [e for e in hook.events if e['cb'] in ('pre_step', 'post_step')]
     blocks = split_blocks(ev)
+    if isinstance(raised, ProgressBound) and blocks and len(blocks[-1]['post']) != len(blocks[-1]['pre']):
+        blocks = blocks[:-1]
     if any(e['dt'] < 1e-7 * dt0 for e in ev):
         r.count('degenerate_tiny_dt_runs')
         r.check(True, 'noop', '')
